@@ -655,9 +655,286 @@ pub mod repair_race {
     }
 }
 
+// ---------------------------------------------------------------------------------------
+// Part `first-use-through-rpc` (E3 transport, after the seeded change `C18n`): the first users of a keyspace name that
+// arrive over the network. A peer's put / multi_put / delete / multi_delete / batch reaches the node's real
+// `ConsistencyService` for a name the node has never heard of, while local client operations use the same name.
+
+pub mod rpc_first_use {
+    use std::collections::BTreeMap;
+    use std::time::Duration;
+
+    use datacake_eventual_consistency::verif::{BatchPayload, ConsistencyClient, MultiPutPayload, MultiRemovePayload};
+    use datacake_node::{Clock, Consistency};
+    use datacake_rpc::Channel;
+    use serde_json::{json, Value};
+    use smallvec::SmallVec;
+
+    use crate::core::{Outcome, Pass, Prop, Src};
+    use crate::e2::{actor_view, doc, meta, store_view};
+    use crate::e3::{self, Layout};
+    use crate::ensure;
+    use crate::model::Stamp;
+    use crate::registry::{DynPart, Gen};
+    use crate::store::ModelStore;
+
+    /// what one first user does: 0-3 local put / del / put_many / del_many, 4 peer put, 5 peer multi_put, 6 peer delete,
+    /// 7 peer multi_delete, 8 peer batch carrying a removal and a modification, 9 peer batch carrying removals only
+    #[derive(Debug, Clone)]
+    pub struct User {
+        pub kind: u8,
+        pub ks: usize,
+        pub delay_ms: u64,
+        pub round_trips: usize,
+    }
+
+    #[derive(Debug, Clone)]
+    pub struct Case {
+        pub users: Vec<User>,
+        pub storage_latency_ms: u64,
+        pub failing_calls: Vec<u64>,
+        pub fail_latency_ms: u64,
+        pub seed: u64,
+    }
+
+    pub struct RpcFirstUse;
+
+    impl Prop for RpcFirstUse {
+        type Case = Case;
+
+        fn id(&self) -> &'static str {
+            "C18"
+        }
+
+        fn part(&self) -> &'static str {
+            "first-use-through-rpc"
+        }
+
+        fn width(&self) -> usize {
+            48
+        }
+
+        fn shrink_budget(&self) -> usize {
+            300
+        }
+
+        fn breadcrumbs(&self) -> bool {
+            true
+        }
+
+        fn gen(&self, src: &mut Src) -> Case {
+            let n_ks = 1 + src.below(2);
+            let users = (0..2 + src.below(5))
+                .map(|_| User {
+                    kind: *src.pick(&[0u8, 1, 2, 3, 4, 5, 6, 6, 7, 7, 8, 9]),
+                    ks: src.below(n_ks),
+                    delay_ms: *src.pick(&[0u64, 0, 0, 1, 3]),
+                    round_trips: src.below(8),
+                })
+                .collect();
+            let storage_latency_ms = *src.pick(&[0u64, 0, 1, 3]);
+            let failing_calls = if src.chance(1, 3) { (0..1 + src.below(2)).map(|_| src.below64(5)).collect() } else { vec![] };
+            let fail_latency_ms = *src.pick(&[0u64, 1, 2, 5]);
+            Case { users, storage_latency_ms, failing_calls, fail_latency_ms, seed: src.word() }
+        }
+
+        fn run(&self, case: &Case) -> Outcome {
+            e3::sim(case.seed, 70_000_000, BTreeMap::new(), |net| run(case, net))
+        }
+
+        fn describe(&self, case: &Case) -> Value {
+            let names = ["local put", "local del", "local put_many", "local del_many", "peer put", "peer multi_put", "peer delete", "peer multi_delete", "peer batch (removal + modification)", "peer batch (removals only)"];
+            json!({
+                "first_users": case.users.iter().map(|u| json!({"does": names[u.kind as usize], "keyspace": format!("fresh{}", u.ks), "after_ms": u.delay_ms, "after_clock_round_trips": u.round_trips})).collect::<Vec<_>>(),
+                "storage_latency_ms": case.storage_latency_ms,
+                "failing_storage_calls_(index_among_the_mutating_calls)": case.failing_calls,
+                "failure_reported_after_ms": case.fail_latency_ms,
+            })
+        }
+
+        fn rule(&self) -> &'static str {
+            "one real node with the real eventual-consistency extension behind the in-process transport; 2-6 first users of 1-2 keyspace names the \
+             node has never heard of, started together as tasks of their own, each 0-3 ms and 0-7 clock round trips later: a local client \
+             operation (put, del, put_many, del_many) or a peer's message to the node's real ConsistencyService sent with the real \
+             ConsistencyClient (put, multi_put, delete, multi_delete, a batch with a removal and a modification, a batch of removals only), \
+             each on ids of its own; storage calls take 0-3 ms, in a third of the cases one or two of the first five storage writes fail; \
+             oracle: every operation that was acknowledged is in the set a later lookup of the keyspace serialises (a tombstone at its stamp \
+             for a delete, a live entry for a put), that set equals storage, and a keyspace holding an acknowledged operation is listed in the \
+             keyspace info peers poll; non-trivial = a peer's delete is among the first users of a name"
+        }
+    }
+
+    async fn run(case: &Case, _net: e3::Net) -> Outcome {
+        let mut latency = BTreeMap::new();
+        if case.storage_latency_ms > 0 {
+            latency.insert(1u8, case.storage_latency_ms);
+        }
+        let layout = Layout { nodes: vec![(1u8, "dc-a".to_string())], repair_interval: Duration::from_secs(30), storage_latency_ms: latency };
+        let nodes = e3::start_cluster(&layout).await;
+        let node = &nodes[0];
+        e3::advance(50).await;
+        {
+            let mut g = node.store.inner.lock();
+            let base = g.mutating_calls;
+            for k in &case.failing_calls {
+                g.faults.insert(base + k, crate::store::Fault::FailBefore);
+            }
+            g.fail_latency_ms = case.fail_latency_ms;
+        }
+        // the peer: node 7, known to nobody; it only needs a clock and a channel to speak to the service
+        let peer_clock = Clock::new(7);
+        let peer_addr: std::net::SocketAddr = ([10, 0, 0, 7], 7000).into();
+        let mut tasks = vec![];
+        for (i, u) in case.users.iter().enumerate() {
+            let u = u.clone();
+            let handle = node.handle.clone();
+            let local_clock = node.node.clock().clone();
+            let peer_clock = peer_clock.clone();
+            let addr = node.addr;
+            tasks.push(tokio::spawn(async move {
+                if u.delay_ms > 0 {
+                    tokio::time::sleep(Duration::from_millis(u.delay_ms)).await;
+                }
+                for _ in 0..u.round_trips {
+                    let _ = local_clock.get_time().await;
+                }
+                let name = format!("fresh{}", u.ks);
+                let k1 = 100 + 10 * i as u64;
+                let k2 = k1 + 1;
+                // stamps of the peer's operations: its own clock's
+                let mut client = ConsistencyClient::<ModelStore>::new(peer_clock.clone(), Channel::connect(addr));
+                // (key, is_delete, stamp if the harness chose it) of what this user asked for
+                let mut asked: Vec<(u64, bool, Option<Stamp>)> = vec![];
+                let ok = match u.kind {
+                    0 => {
+                        asked.push((k1, false, None));
+                        handle.put(&name, k1, vec![1u8; 2], Consistency::None).await.is_ok()
+                    },
+                    1 => {
+                        asked.push((k1, true, None));
+                        handle.del(&name, k1, Consistency::None).await.is_ok()
+                    },
+                    2 => {
+                        asked.extend([(k1, false, None), (k2, false, None)]);
+                        handle.put_many(&name, vec![(k1, vec![2u8; 2]), (k2, vec![3u8; 1])], Consistency::None).await.is_ok()
+                    },
+                    3 => {
+                        asked.extend([(k1, true, None), (k2, true, None)]);
+                        handle.del_many(&name, vec![k1, k2], Consistency::None).await.is_ok()
+                    },
+                    _ => {
+                        let t = Stamp::of(peer_clock.get_time().await);
+                        let t2 = Stamp::of(peer_clock.get_time().await);
+                        match u.kind {
+                            4 => {
+                                asked.push((k1, false, Some(t)));
+                                client.put(name.clone(), doc(k1, t, 2), 7, peer_addr).await.is_ok()
+                            },
+                            5 => {
+                                asked.extend([(k1, false, Some(t)), (k2, false, Some(t2))]);
+                                client.multi_put(name.clone(), vec![doc(k1, t, 2), doc(k2, t2, 1)].into_iter(), 7, peer_addr).await.is_ok()
+                            },
+                            6 => {
+                                asked.push((k1, true, Some(t)));
+                                client.del(name.clone(), k1, t.hlc()).await.is_ok()
+                            },
+                            7 => {
+                                asked.extend([(k1, true, Some(t)), (k2, true, Some(t2))]);
+                                let docs: SmallVec<[_; 4]> = SmallVec::from_vec(vec![meta(k1, t), meta(k2, t2)]);
+                                client.multi_del(name.clone(), docs).await.is_ok()
+                            },
+                            _ => {
+                                let mut modified: SmallVec<[MultiPutPayload; 4]> = SmallVec::new();
+                                let mut removed: SmallVec<[MultiRemovePayload; 4]> = SmallVec::new();
+                                asked.push((k1, true, Some(t)));
+                                removed.push(MultiRemovePayload { keyspace: name.clone(), documents: SmallVec::from_vec(vec![meta(k1, t)]), timestamp: t2.hlc() });
+                                if u.kind == 8 {
+                                    asked.push((k2, false, Some(t2)));
+                                    modified.push(MultiPutPayload { keyspace: name.clone(), documents: SmallVec::from_vec(vec![doc(k2, t2, 2)]), ctx: None, timestamp: t2.hlc() });
+                                }
+                                let batch = BatchPayload { timestamp: t2.hlc(), modified, removed };
+                                client.apply_batch(&batch).await.is_ok()
+                            },
+                        }
+                    },
+                };
+                (u, ok, asked)
+            }));
+        }
+        let mut acked: Vec<(User, Vec<(u64, bool, Option<Stamp>)>)> = vec![];
+        for t in tasks {
+            let (u, ok, asked) = t.await.expect("task");
+            if ok {
+                acked.push((u, asked));
+            }
+        }
+        e3::advance(200).await;
+        let group = node.handle.verif_group().clone();
+        let advertised = group.get_keyspace_info().await.keyspace_timestamps;
+        for ks in 0..2 {
+            let name = format!("fresh{ks}");
+            let mine: Vec<&(User, Vec<(u64, bool, Option<Stamp>)>)> = acked.iter().filter(|(u, _)| u.ks == ks).collect();
+            if mine.is_empty() && group.verif_get(&name).is_none() {
+                continue;
+            }
+            let set = actor_view(&group, &name).await;
+            let st = store_view(&node.store, &name);
+            for (u, asked) in &mine {
+                for (key, is_delete, stamp) in asked {
+                    let held = if *is_delete { set.dead.get(key) } else { set.live.get(key) };
+                    let fine = match (held, stamp) {
+                        (Some(h), Some(s)) => h == s,
+                        (Some(_), None) => true,
+                        (None, _) => false,
+                    };
+                    ensure!(
+                        fine,
+                        "acked-operation-missing-from-keyspace-state",
+                        "keyspace {name}: the {} of id {key}{} was acknowledged (first user kind {}), but the set a later lookup returns holds {:?} for it (set: {:?})",
+                        if *is_delete { "delete" } else { "put" },
+                        stamp.map(|s| format!(" at {:?}", s)).unwrap_or_default(),
+                        u.kind,
+                        held,
+                        set
+                    );
+                }
+            }
+            ensure!(set == st, "state-differs-from-storage", "keyspace {name}: the keyspace's set {:?} differs from storage {:?}", set, st);
+            if !mine.is_empty() {
+                ensure!(
+                    advertised.contains_key(&name),
+                    "keyspace-with-accepted-operations-not-advertised",
+                    "keyspace {name} holds acknowledged operations but the keyspace info peers poll lists only {:?}",
+                    advertised.keys().collect::<Vec<_>>()
+                );
+            }
+        }
+        let mut labels = vec![];
+        let peer_delete = case.users.iter().any(|u| matches!(u.kind, 6 | 7 | 8 | 9));
+        if peer_delete {
+            labels.push("peer_delete_among_the_first_users");
+        }
+        if case.users.iter().any(|u| u.kind <= 3) && case.users.iter().any(|u| u.kind >= 4) {
+            labels.push("local_and_remote_first_users");
+        }
+        if node.store.inner.lock().injected > 0 {
+            labels.push("a_storage_write_failed");
+        }
+        if case.users.iter().any(|u| u.kind >= 8) {
+            labels.push("batch");
+        }
+        Ok(Pass { nontrivial: peer_delete, labels })
+    }
+
+    pub fn parts() -> Vec<Box<dyn DynPart>> {
+        vec![Box::new(Gen::new(RpcFirstUse, 40_000, 2_000_000))]
+    }
+}
+
 pub fn parts_all() -> Vec<Box<dyn DynPart>> {
     let mut p = parts();
     p.extend(startup::parts());
     p.extend(repair_race::parts());
+    p.extend(rpc_first_use::parts());
     p
 }
